@@ -9,6 +9,27 @@ ALL = ["C%02d" % i for i in range(1, 21)]
 
 # id -> (category, text, note, technique, design_ref)
 CHECKS = {
+    "C03": ("fault_enumeration",
+            "The real region client (reader goroutine, batching writer, callers sending unbatched calls) runs over an "
+            "instrumented connection; for seeded workloads every fault position is enumerated: the k-th Read / Write / "
+            "SetReadDeadline / SetWriteDeadline fails (error, partial write, short read + EOF, timeout), an external Close at "
+            "every operation count, and a server that sends an undecodable frame, an unknown call id, a server-fatal "
+            "exception, closes mid-frame or falls silent at the r-th request, each under plain / slow-writer / slow-reader "
+            "schedules. Counting receivers on every result channel observe 0, 1 or 2 deliveries; post-failure submissions must "
+            "be refused with the connection-level class; a goroutine census must find nothing left of the failed client.",
+            "Positions beyond the dry-run operation count and interleavings not realised by the three schedules are not judged. "
+            "Quiescence bound 4 s (read timeout 300 ms).",
+            "runtime fault-position enumeration with exactly-once accounting and goroutine census", "DESIGN.md §2 C03"),
+    "C18": ("exploration",
+            "Request/response sequences on one connection (bare region client and full client) bring the outstanding count to "
+            "zero and back through unbatched calls, batches, responses forced to be read before the sender returns from Write, "
+            "calls cancelled while unanswered and responses released together. The connection wrapper records every "
+            "SetReadDeadline: at each quiescent point no deadline may be armed and the connection must be open; while requests "
+            "are held the armed deadline must cover last send + timeout. Real-time cases: idle for 5 timeouts then a request on "
+            "the same connection (no re-dial), and a silent server detected not before one timeout.",
+            "Deadline comparisons use the values the client passed to SetReadDeadline. Upper bound on detection is 2 s beyond "
+            "the timeout.",
+            "runtime invariant monitor on hooked connection state at quiescent points", "DESIGN.md §2 C18"),
     "C02": ("exploration",
             "Histories of up to 64 concurrent callers issuing gets, mutations and batches carry a unique id per operation; "
             "the simulated servers derive every response from the request itself, delay responses at random (reordering them "
